@@ -13,6 +13,7 @@
 Not decided: behaviour of river's trees at run time (restructuring, routing after learn_one, class sets).
 """
 from .. import ir
+from ..paths import root as paths_root
 from ..paths import walk
 from ..report import AnalysisError
 from .algebra import identical
@@ -58,6 +59,7 @@ def _check_own(run):
     ts = prog.find_class(TS)
     ti = prog.find_class("TreeImputer")
     run.need(ts is not None and ti is not None, "anchor classes TreeStorage / TreeImputer vanished")
+    _current_root(run, prog, (ts, ti))
     _len(run, prog, ts)
     _reservoirs(run, prog, ts)
     _sweep(run, prog, ts)
@@ -66,6 +68,41 @@ def _check_own(run):
     # the always-insert request must be honoured by the reservoir class (constructor keeps p = 1, accept test U <= p)
     from . import c09
     c09.check(c06.FilterRun(run, {"FORMULA", "AGREE"}, {"FORMULA": "RESERVOIR", "AGREE": "RESERVOIR"}))
+
+
+def _current_root(run, prog, classes):
+    """ROOT: a feature tree's root node is read from the tree whenever it is needed.  river *rebinds* `tree._root` when the
+    root leaf splits (and when a drift swaps it), so a root node kept in the object's state -- alone or frozen inside a
+    partial / closure -- is an orphan afterwards: points routed through it end in a leaf id that has no reservoir."""
+    import ast
+    n = 0
+    for K in classes:
+        for name, fn in K.methods.items():
+            if name.startswith("__") and name != "__init__" and name != "__call__":
+                continue
+            try:
+                s = prog.summarise(K, name)
+            except ir.Unsupported:
+                continue
+            for ev, ctx in walk(s.events):
+                kept = None
+                if isinstance(ev, ir.Store):
+                    kept = ev.value
+                elif isinstance(ev, ir.SubStore) and paths_root(ev.cont)[0] == "field0":
+                    kept = ev.value
+                elif isinstance(ev, ir.Mut) and paths_root(ev.recv)[0] == "field0" and ev.method in ("append", "add", "update", "setdefault", "insert"):
+                    kept = ("tuple", tuple(ev.args))
+                if kept is None:
+                    continue
+                n += 1
+                if any(t[0] == "attr" and len(t) > 2 and t[2] == "_root" for t in ir.subterms(kept)):
+                    fq = f"{K.name}.{name}"
+                    run.fail("ROOT", f"{fq}:kept-root", f"{s.path}:{ev.line}", fq, run.stmt_text(s.path, ev.line),
+                             f"{fq} keeps a tree's `_root` node in the object's state ({ir.show_nl(kept)[:100]}): river rebinds "
+                             f"`_root` when the root splits or is swapped after a drift, so later points are routed through an "
+                             f"orphaned node and miss the reservoir of the leaf they really belong to")
+    if not any(f.rule == "ROOT" for f in run.findings):
+        run.ok("ROOT", "package", f"{n} writes to the state of TreeStorage / TreeImputer, none keeps a root node")
 
 
 def _len(run, prog, ts):
